@@ -81,7 +81,7 @@ def worker_env(sha):
 def run_job(spec, env, timeout):
     t0 = time.time()
     try:
-        p = subprocess.run([PY, "-u", "-m", "vf.worker", json.dumps(spec)], cwd=ROOT, env=env,
+        p = subprocess.run([PY, "-u", "-m", "vf.fuzz" if spec.get("driver") == "fuzz" else "vf.worker", json.dumps(spec)], cwd=ROOT, env=env,
                            stdout=subprocess.PIPE, stderr=subprocess.STDOUT, timeout=timeout)
         out = p.stdout.decode(errors="replace")
         rc = p.returncode
@@ -227,6 +227,15 @@ def main(argv=None):
             jobs.append(({"property": prop, "subcheck": sub.name, "tier": a.tier, "seed": seed, "shard": sh,
                           "nshards": n, "known": active_known.get(sub.name, []), "replay_dir": replay_dir,
                           "out": out}, sub.hard_timeout[ti]))
+        if a.tier == "thorough" and sub.fuzz and sub.machine is not None and os.path.isdir(core.DEPS):
+            fz = sub.fuzz
+            for sh in range(int(fz.get("shards", 4))):
+                out = os.path.join(tmpdir, f"{sub.name}-fuzz-{sh}.json")
+                jobs.append(({"property": prop, "subcheck": sub.name, "tier": a.tier, "seed": seed, "shard": sh,
+                              "nshards": int(fz.get("shards", 4)), "known": active_known.get(sub.name, []),
+                              "replay_dir": replay_dir, "out": out, "driver": "fuzz", "runs": int(fz.get("runs", 20000)),
+                              "max_seconds": int(fz.get("max_seconds", 600)),
+                              "corpus": os.path.join(tmpdir, f"corpus-{sub.name}-{sh}")}, int(fz.get("max_seconds", 600)) + 300))
     results = collections.defaultdict(list)
     with cf.ThreadPoolExecutor(max_workers=a.jobs) as ex:
         futs = [ex.submit(run_job, spec, env, to) for spec, to in jobs]
@@ -235,7 +244,7 @@ def main(argv=None):
             name = spec["subcheck"]
             if res is None:
                 # killed by the watchdog or died: violation only if it left a replay behind
-                left = glob.glob(os.path.join(replay_dir, f"{name}-s{seed}-{spec['shard']}.json"))
+                left = glob.glob(os.path.join(replay_dir, f"{name}-{'fuzz-' if spec.get('driver') == 'fuzz' else ''}s{seed}-{spec['shard']}.json"))
                 if rc == "timeout" and left:
                     violations.append({"subcheck": name, "replay": os.path.relpath(left[0], ROOT), "reason": "timeout-while-shrinking"})
                 else:
@@ -289,7 +298,13 @@ def main(argv=None):
             "max_observed_error": max(r["max_err"] for r in rs), "wall_s": max(r["wall_s"] for r in rs),
             "exhaustive": bool(sub.exhaustive), "rule": sub.rule,
         }
-        if rs[0]["mode"] == "machine":
+        fz = [r for r in rs if r.get("mode") == "fuzz"]
+        if fz:
+            subs_ev[sub.name]["fuzz"] = {"driver": "atheris/libFuzzer on fuzz_one_input of the list-of-steps form of the machine",
+                                         "executions": sum(r["executed"] for r in fz), "shards": len(fz),
+                                         "instrumented_functions": max(r.get("instrumented_functions", 0) for r in fz),
+                                         "steps": sum(r.get("steps", 0) for r in fz)}
+        if rs[0]["mode"] in ("machine", "fuzz"):
             subs_ev[sub.name]["steps"] = sum(r.get("steps", 0) for r in rs)
             subs_ev[sub.name]["step_rejects"] = sum(r.get("step_rejects", 0) for r in rs)
         tot_eval += max(cells, ex_)
